@@ -62,21 +62,21 @@ def c07(tier, seed):
     own('own-memb', 'memb', 'plain', 36, 25000)
     own('own-memb-sig', 'memb', 'plain', 24, 20000, ['--sig=1', '--hook-prob=0.004'])
     own('own-qsbr', 'qsbr', 'plain', 24, 25000)
-    own('own-memb-asan', 'memb', 'asan', 10, 8000)
-    own('own-qsbr-asan', 'qsbr', 'asan', 8, 8000)
-    own('own-memb-tsan', 'memb', 'tsan', 6, 4000)
+    own('own-memb-asan', 'memb', 'asan', 16, 8000)
+    own('own-qsbr-asan', 'qsbr', 'asan', 16, 8000)
+    own('own-memb-tsan', 'memb', 'tsan', 24, 4000)
     # bucket arrays released by shrink: walkers hold iterators across delays while levels are unlinked and freed
     out.append(_c('shrink-memb', 'memb', 'plain', 'resize', 'C07',
-                  ['--rounds=%d' % (24 * s), '--res-calls=40', '--walk=2', '--cont=1', '--upd=1', '--sig=1', '--walk-delay=0.02',
+                  ['--rounds=%d' % (60 * s), '--res-calls=40', '--walk=2', '--cont=1', '--upd=1', '--sig=1', '--walk-delay=0.02',
                    '--tun-commit-order=2', '--tun-part-order=3'], scale=s))
     out.append(_c('shrink-qsbr', 'qsbr', 'plain', 'resize', 'C07',
-                  ['--rounds=%d' % (16 * s), '--res-calls=40', '--walk=2', '--cont=1', '--upd=1', '--walk-delay=0.02',
+                  ['--rounds=%d' % (48 * s), '--res-calls=40', '--walk=2', '--cont=1', '--upd=1', '--walk-delay=0.02',
                    '--tun-commit-order=2', '--tun-part-order=3'], scale=s))
     out.append(_c('shrink-memb-asan', 'memb', 'asan', 'resize', 'C07',
-                  ['--rounds=%d' % (8 * s), '--res-calls=25', '--walk=2', '--cont=1', '--upd=1', '--walk-delay=0.02',
+                  ['--rounds=%d' % (24 * s), '--res-calls=25', '--walk=2', '--cont=1', '--upd=1', '--walk-delay=0.02',
                    '--tun-commit-order=2', '--tun-part-order=3'], scale=s))
     # the table after destroy
-    for fl, var, rounds in (('memb', 'plain', 150), ('qsbr', 'plain', 60), ('memb', 'asan', 40), ('memb', 'tsan', 12)):
+    for fl, var, rounds in (('memb', 'plain', 300), ('qsbr', 'plain', 150), ('memb', 'asan', 120), ('memb', 'tsan', 40)):
         out.append(_c('destroy-%s%s' % (fl, '' if var == 'plain' else '-' + var), fl, var, 'destroy', 'C07',
                       ['--rounds=%d' % (rounds * s), '--upd=3', '--upd-ops=2500', '--pop-hi=900', '--tun-commit-order=2',
                        '--tun-part-order=3'], cpus=5, scale=s))
@@ -138,19 +138,20 @@ def c09(tier, seed):
                                                        '--resident=2', '--walk=1', '--cont=1'] + tun + list(extra),
                       cpus=cpus, scale=s))
 
-    rz('resize-memb', 'memb', 'plain', 60, 40)
-    rz('resize-memb-stock', 'memb', 'plain', 10, 30, ['--flags=3', '--pop-hi=24000', '--max-order=12'], low=False)
+    rz('resize-memb', 'memb', 'plain', 40, 40)
+    rz('resize-memb-stock', 'memb', 'plain', 3, 30, ['--flags=3', '--pop-hi=20000', '--max-order=12', '--walk=0', '--resident=1',
+                                                  '--cont=0'], low=False)
     rz('resize-memb-auto', 'memb', 'plain', 30, 40, ['--flags=3', '--pop-hi=2500'])
-    rz('resize-qsbr', 'qsbr', 'plain', 30, 40)
-    rz('resize-qsbr-auto', 'qsbr', 'plain', 24, 40, ['--flags=1', '--pop-hi=1500'])
-    rz('resize-memb-asan', 'memb', 'asan', 14, 25)
-    rz('resize-qsbr-asan', 'qsbr', 'asan', 10, 25)
-    rz('resize-memb-tsan', 'memb', 'tsan', 6, 12)
-    out.append(_c('big-memb', 'memb', 'plain', 'big', 'C09', ['--rounds=%d' % (3 * s), '--res-calls=10', '--res=2', '--upd=2',
+    rz('resize-qsbr', 'qsbr', 'plain', 40, 40)
+    rz('resize-qsbr-auto', 'qsbr', 'plain', 40, 40, ['--flags=1', '--pop-hi=1500'])
+    rz('resize-memb-asan', 'memb', 'asan', 20, 25)
+    rz('resize-qsbr-asan', 'qsbr', 'asan', 24, 25)
+    rz('resize-memb-tsan', 'memb', 'tsan', 20, 12)
+    out.append(_c('big-memb', 'memb', 'plain', 'big', 'C09', ['--rounds=%d' % (9 * s), '--res-calls=10', '--res=2', '--upd=2',
                                                               '--resident=1', '--walk=1'], cpus=8, scale=s))
-    out.append(_c('big-qsbr', 'qsbr', 'plain', 'big', 'C09', ['--rounds=%d' % (2 * s), '--res-calls=8', '--res=1', '--upd=2',
+    out.append(_c('big-qsbr', 'qsbr', 'plain', 'big', 'C09', ['--rounds=%d' % (6 * s), '--res-calls=8', '--res=1', '--upd=2',
                                                               '--resident=1', '--walk=1'], cpus=8, scale=s))
-    for fl, var, rounds in (('memb', 'plain', 150), ('qsbr', 'plain', 60), ('memb', 'asan', 40)):
+    for fl, var, rounds in (('memb', 'plain', 300), ('qsbr', 'plain', 150), ('memb', 'asan', 120)):
         out.append(_c('destroy-%s%s' % (fl, '' if var == 'plain' else '-' + var), fl, var, 'destroy', 'C09',
                       ['--rounds=%d' % (rounds * s), '--upd=3', '--upd-ops=2500', '--pop-hi=900', '--res=1', '--tun-commit-order=2',
                        '--tun-part-order=3'], cpus=5, scale=s))
